@@ -5,7 +5,8 @@ import random
 
 import z3
 
-from harness.common import Ctx, byte_obligation, generic_in_process, mi, read_scenario
+from harness.common import Ctx, byte_obligation, mi, read_scenario
+from oracles.mem import SymMem
 from oracles import vhd as spec
 from symx import core, files, layouts, loader, stubs
 from symx.core import bvval as V
@@ -36,10 +37,9 @@ def read_task(prop, cfg, tier, seed):
     bs = cfg.get("block_size", 1 << 21)
     spb = bs // 512
     N = cfg.get("n_blocks", 1)
-    core.set_width(80)
+    core.set_width(cfg.get("W", 80))
     m = load()
     ctx = Ctx(prop, f"vhd.{kind}", cfg, tier, seed, engine_kw=dict(max_decisions=cfg.get("max_decisions", 400)))
-    ctx.replay_in_process = generic_in_process
     rng = random.Random(seed)
     maxlen = N * bs if kind == "dynamic" else cfg.get("max_len", 1 << 24)
 
@@ -57,7 +57,7 @@ def read_task(prop, cfg, tier, seed):
         E.assume(cur >= 512)
         E.assume(cur <= 1 << 48)
         E.assume(cur % 512 == 0)
-        vars_ = dict(fsize=core.bv(fsize), current_size=core.bv(cur), data_offset=core.bv(data_offset))
+        vars_ = dict(fsize=fsize, current_size=cur, data_offset=data_offset)
         offset = E.var("offset", 0, 1 << 48)
         length = E.var("length", 512, maxlen)
         E.assume(offset % 512 == 0)
@@ -82,24 +82,23 @@ def read_task(prop, cfg, tier, seed):
                 e = files.word_at("img", table_offset + 4 * (b0 + k), 4, "be")
                 E.assume(e != 0)
                 E.assume(core.sym_or(e == 0xFFFFFFFF, (e + spec.bitmap_sectors(bs) + spb) * 512 <= fsize))
-            vars_.update(table_offset=core.bv(table_offset), max_entries=core.bv(max_entries))
-        j = z3.BitVec("j", core.S.W)
-        vars_.update(offset=core.bv(offset), length=core.bv(length), j=j)
+            vars_.update(table_offset=table_offset, max_entries=max_entries)
+        j = E.var("j", 0, 1 << 50)
+        vars_.update(offset=offset, length=length, j=j)
         explen = core.sym_min(length, cur - offset) if cfg.get("tail") else length
+        mem = SymMem("img")
 
-        def spec_at(model, g, env):
-            return spec.guest_byte(V(g), V(mi(model, fsize)), bs)
+        def spec_at(model, g, mems, ops):
+            return spec.guest_byte(g, mi(model, fsize), bs, mems["img"], kind == "dynamic")
 
-        prefer = [core.bv(length) <= V(16 << 20)]
         ctx.scenario = read_scenario(
             ctx, E, vars_, entry="vhd", params=lambda mo: {}, call=lambda mo: ["_read", mi(mo, offset), mi(mo, length)],
             total=lambda mo: mi(mo, explen), g0=lambda mo: mi(mo, offset), spec_at=spec_at, unit=bs, rng=rng, j=j,
-            prefer=prefer, sizes=dict(img=lambda mo: mi(mo, fsize)))
+            prefer=[length <= 16 << 20], sizes=dict(img=lambda mo: mi(mo, fsize)))
         obj = m.VHD(fh)
         res = obj._read(offset, length)
-        sv = spec.guest_byte(core.bv(offset) + j, core.bv(fsize), bs)
-        bad = byte_obligation(res, j, core.bv(explen), sv)
-        bad = z3.Or(bad, core.bv(obj.size) != core.bv(cur))
+        sv = spec.guest_byte(offset + j, fsize, bs, mem, kind == "dynamic")
+        bad = byte_obligation(res, j, explen, sv, extra=[obj.size != cur])
         if ctx.obligation(bad, "read differs from the guest-visible content"):
             ctx.witness()
 
